@@ -113,20 +113,29 @@ CHECKS = {
         note='Modelled not verified: girwriter.c (typelib->GIR text), memory safety, the hand-written GLib declarations.',
         design='Part B C09'),
     'C10': dict(
-        text='Theorems: the annotation tokenizer (_parse_annotations/_parse_annotation/option parsers) reads back exactly what the '
-             'serializer emits for every well-formed annotation list; an annotation field continued over k lines parses as the '
-             'single-line field; line-pattern shapes and the annotation vocabulary are pinned to the source each run. Block-level '
-             'round trip and layout independence are validated differentially against the real parser/writer (and proved as far as '
-             'the block model reaches — see the Props file).',
-        note='Modelled not verified: CPython re (each pattern re-expressed as a direct scanner and compared with re on every run).',
+        text='Model: parse_comment_block statement by statement (line-ending normalisation, start/end tokens, the identifier chain, '
+             'parameters, tags incl. every deprecated form, continuation lines, clean-up, every diagnostic) and the comment writer, '
+             'each partial Python operation an explicit Except step. Theorems: the annotation tokenizer reads back exactly what the '
+             'serializer emits for every well-formed annotation list, empty option values included (C10_ann_roundtrip, full); an '
+             'annotation field continued over k lines parses as the single-line field; LF, CR and CRLF give the same lines and the '
+             'same parse; any white space before the asterisk is stripped with the right column; the line matchers are '
+             'shift-equivariant under indentation; for every layout and every block of the stated grammar fragment '
+             '(Spec/BlockGrammar.lean) parseBlock(render L b) is exactly the block with no diagnostic, all layouts parse alike, and '
+             'parse-write-parse returns the same block (`_partial` = the fragment: symbol identifiers, parameters with one-line '
+             'descriptions, one paragraph, Returns:). Outside the fragment the block model is compared with the real parser and '
+             'writer on every generated and corpus text (0 disagreements) and judged by statement oracles. Pattern shapes, the '
+             'vocabulary and the writer regex are pinned from the source each run.',
+        note='Modelled not verified: CPython re (each pattern re-expressed as a direct scanner and compared with re on every run), validate() (outside the block model).',
         design='Part B C10'),
     'C11': dict(
-        text='Theorems for ALL strings: the tokenizer layer never reaches a partial Python operation with a bad argument (explicit Except '
-             'steps), except the one confirmed len(None) class (witness + _partial + known finding); a failing _parse_annotations leaves '
-             'the annotations exactly as before and is always reported; caret positions lie inside the quoted line; the message log '
-             'counts every diagnostic independently of display suppression and warn_fatal fails exactly when something was counted. The '
-             'block level (line matchers, state machine, validate) is covered by the differential harness and statement oracles on the '
-             'real parser for arbitrary strings, not by a theorem.',
+        text='Theorems for ALL strings: parseBlock is total — no partial operation of the tokenizer or of the block state machine is '
+             'reachable with a bad argument (explicit Except steps; C11_block_total, C11_line_total, C11_ann_total, C11_validate_len); a '
+             'failing _parse_annotations leaves the annotations exactly as before and is always reported; whatever is logged while a '
+             'line is read names that line, and with the opening token alone on its line every diagnostic of the block model names a '
+             'line of the comment (`_partial`: validate() is outside the model — known finding on positions); caret positions lie '
+             'inside the quoted field; the message log counts every diagnostic independently of display suppression and warn_fatal '
+             'fails exactly when something was counted. Quoted line and caret at block level, survival of the other blocks and '
+             'scanner_main are compared with the real parser on arbitrary strings and judged by statement oracles.',
         note='Modelled not verified: CPython re / str.lower table.',
         design='Part B C11'),
     'C12': dict(
@@ -228,7 +237,7 @@ CHECKS = {
 }
 
 # properties whose check currently passes on the unchanged tree and is registered
-CLAIMED = ['C01', 'C02', 'C03', 'C04', 'C05', 'C06', 'C07', 'C08', 'C09', 'C11', 'C12', 'C13', 'C14', 'C15', 'C16', 'C17', 'C18', 'C19', 'C20']
+CLAIMED = ['C01', 'C02', 'C03', 'C04', 'C05', 'C06', 'C07', 'C08', 'C09', 'C10', 'C11', 'C12', 'C13', 'C14', 'C15', 'C16', 'C17', 'C18', 'C19', 'C20']
 
 PENDING = {
 }
